@@ -161,6 +161,9 @@ class Ranker:
         return out
 
 
+SOURCE_FLAGS = ("env", "defaults")
+
+
 def run(ctx: Ctx) -> int:
     repo = ctx.repo
     sites: List[Tuple[str, ast.AST, ast.Call]] = []
@@ -344,6 +347,53 @@ def run(ctx: Ctx) -> int:
     ctx.oblige("C04.b", not reorder, reorder[0] if reorder else gdf, "no re-ordering of the combined default config file list (sorted() only per glob pattern)" if not reorder else f"combined default-config list is re-ordered: {src(reorder[0])}", fn=gdf, construct="no reorder of combined list")
     floops = [n for n in walk_local(gdf) if isinstance(n, ast.For) and dotted(n.iter) is not None and dotted(n.iter).endswith("default_config_files")]
     ctx.oblige("C04.b", len(floops) >= 2, gdf, "patterns are iterated in listed order (direct iteration of default_config_files)" if len(floops) >= 2 else "pattern loops over default_config_files changed shape", fn=gdf, construct="pattern loops in listed order")
+
+    # ---- C04.e the source-selection flags keep their meaning across calls ---------------------------
+    # `env` (environment variables are a source) and `defaults` (defaults are a source) travel through the
+    # parse call chain as same-named parameters; a call that binds one flag to the other's parameter silently
+    # turns sources on and off below that call
+    from .callgraph import CallGraph
+
+    cg = ctx.extra.get("_cg") or CallGraph(repo)
+    n_flag_calls = 0
+    for fq, fn in repo.all_funcs():
+        for c in calls_in(fn):
+            flagged = [a.id for a in c.args if isinstance(a, ast.Name) and a.id in SOURCE_FLAGS] + [k.value.id for k in c.keywords if k.arg and isinstance(k.value, ast.Name) and k.value.id in SOURCE_FLAGS]
+            if not flagged:
+                continue
+            targets, how = cg.resolve(fq, c)
+            targets = [t for t in targets if t in cg.funcs]
+            if not targets or how in ("imprecise", "unresolved", "external"):
+                continue
+            for t in targets:
+                tf = cg.funcs[t]
+                params = [a.arg for a in tf.args.posonlyargs + tf.args.args]
+                decos = {dotted(d) for d in getattr(tf, "decorator_list", [])}
+                explicit_self = isinstance(c.func, ast.Attribute) and isinstance(c.func.value, ast.Name) and c.func.value.id[:1].isupper() or (isinstance(c.func, ast.Attribute) and isinstance(c.func.value, ast.Name) and c.func.value.id.startswith("_Action"))
+                if t in cg.class_of and "staticmethod" not in decos and params and params[0] in ("self", "cls") and not (explicit_self and "classmethod" not in decos):
+                    params = params[1:]
+                bound = {}
+                for i, a in enumerate(c.args):
+                    if isinstance(a, ast.Starred):
+                        break
+                    if i < len(params) and isinstance(a, ast.Name):
+                        bound[params[i]] = a.id
+                for k in c.keywords:
+                    if k.arg and isinstance(k.value, ast.Name):
+                        bound[k.arg] = k.value.id
+                hits = {p: a for p, a in bound.items() if p in SOURCE_FLAGS or a in SOURCE_FLAGS}
+                if not hits:
+                    continue
+                n_flag_calls += 1
+                crossed = {p: a for p, a in hits.items() if p in SOURCE_FLAGS and a in SOURCE_FLAGS and p != a}
+                ctx.oblige(
+                    "C04.e",
+                    not crossed,
+                    c,
+                    f"source flags are passed to the same-named parameters of {t.split(':')[1]} ({hits})" if not crossed else f"the source-selection flags are crossed in the call of {t.split(':')[1]}: {crossed} - below this call environment variables are read when only defaults were enabled (and the reverse)",
+                    fn=fn,
+                )
+    ctx.floor("C04.e-flag-calls", n_flag_calls, 5)
 
     ctx.trusted_base += ["Namespace.update(x) lets x win (checked separately under C11 clash rules only structurally)", "argparse applies option actions left to right"]
     ctx.assumptions += ["producer table (callee -> provenance rank) and the per-function GIVEN table in rules_C04.py; an unrankable merge site is an ANALYSIS-ERROR, not a pass"]
